@@ -743,6 +743,20 @@ class ResolveVectorNotationTransformer(Transformer):
                     )
             new_rhs_dims_per_array.append(new_rhs_dims)
 
+        # Fortran evaluates the RHS of an array assignment completely before any element
+        # of the LHS is assigned. An element-wise loop only keeps this if every reference
+        # to the LHS array on the RHS is accessed with exactly the LHS index in the resolved
+        # dimensions; otherwise (e.g. ``a(2:n) = a(1:n-1)``) leave the statement untouched.
+        for array, new_rhs_dims in zip(rhs_arrays, new_rhs_dims_per_array):
+            if create_loops and array.name.lower() == lhs_array.name.lower() and \
+                    any(rd != ld for rd, ld in zip(new_rhs_dims, new_lhs_dims)):
+                scope_str = f' in routine "{self.scope.name}"' if self.scope is not None else ''
+                warning(
+                    f'[ResolveVectorNotationTransformer] RHS of "{stmt}"{scope_str} overlaps the LHS '
+                    f'with a shifted range; vector notation not resolved. '
+                )
+                return stmt
+
         # --- Step 7: Build new array expressions ---
 
         # New LHS array with loop indices replacing ranges
